@@ -24,7 +24,7 @@ enum { MAXPK = 24, MAXOPS = 6, RXCAP = 512, OUTCAP = 256, MAXMSG = 8 };
 // one packet the broker received from the client (decoded by the reference decoder)
 struct pkt_rec { uint8_t type, qos, rc; bool dup, retain, has_rc; uint16_t pid; int epoch; uint32_t off, len; int write_no; int aux; };
 // one user operation
-struct op_rec { int kind; int done; int ec; int rc; int rcs[3]; int nrcs; bool inline_completion; int64_t t_done; uint16_t pid_seen; };
+struct op_rec { int kind; int done; int ec; int rc; int rcs[3]; int nrcs; bool inline_completion; int64_t t_done; uint16_t pid_seen; bool has_rs; uint8_t rs_len, rs1; int nuser; };
 // one message handed to the application by async_receive
 struct msg_rec { int ec; bool session_expired; uint8_t topic0, topic1; uint8_t payload0, payload1; uint32_t tlen, plen; bool has_exp; uint32_t exp; int nprops; };
 
@@ -112,6 +112,15 @@ struct W {
     in_api = false;
     vk::drain();
   }
+  // async_run with a cancellation slot: emitting the signal stops the client through client_service::cancel() on the SAME service
+  // object (mqtt_client::cancel() swaps in a fresh one), which async_run may then be called on again
+  asio::cancellation_signal run_sig;
+  void run_cancellable() {
+    in_api = true;
+    c.async_run(asio::bind_cancellation_slot(run_sig.slot(), [this](error_code ec) { run_done++; run_ec = ec.value(); }));
+    in_api = false;
+  }
+  void cancel_run() { in_api = true; run_sig.emit(asio::cancellation_type::terminal); in_api = false; }
   // drive (backoff timer) + resolve + TCP connect + CONNECT write of one attempt; false if no attempt is in progress
   bool establish() {
     for (int guard = 0; guard < 4; guard++) {
@@ -125,6 +134,27 @@ struct W {
     vk::complete_connect(s, {}); new_connection(); vk::drain();
     vk::sock_rec* w = vk::pending_write(); if (!w) return false;
     finish_write(w, w->wdata.size(), {}); vk::drain();
+    return true;
+  }
+  // a connection attempt that fails before the client is connected again (C02: "refused or timed-out connection attempts"):
+  // 1 TCP connect refused, 2 CONNECT answered with a failing CONNACK, 3 silent broker (the 5 s handshake timer fires), 4 resolve fails.
+  // Returns false if no attempt was in progress.
+  bool failed_attempt(int how) {
+    for (int guard = 0; guard < 4; guard++) {
+      if (vk::pending_resolve() || vk::pending_connect()) break;
+      vk::timer_rec* t = vk::world().timers.size() > 1 ? vk::world().timers[1] : nullptr;
+      if (t && t->armed) { last_backoff_ms = t->dur_ms; if (!fire_until(t)) break; } else break;
+    }
+    vk::timer_rec* ct = vk::world().timers.size() > 1 ? vk::world().timers[1] : nullptr;
+    if (how == 4) { auto* r = vk::pending_resolve(); if (!r) return false; vk::complete_resolve(r, asio::error::host_not_found, 0); vk::drain(); return true; }
+    if (auto* r = vk::pending_resolve()) { vk::complete_resolve(r, {}, 1); vk::drain(); }
+    vk::sock_rec* s = vk::pending_connect(); if (!s) return false;
+    if (how == 1) { vk::complete_connect(s, asio::error::connection_refused); vk::drain(); return true; }
+    vk::complete_connect(s, {}); new_connection(); vk::drain();
+    vk::sock_rec* wr = vk::pending_write(); if (!wr) return false;
+    finish_write(wr, wr->wdata.size(), {}); vk::drain();
+    if (how == 2) { send_connack(false, 0x88, nullptr, 0); feed_all(); vk::drain(); connack_sent = false; out_n = out_pos = 0; return true; }
+    bool f = ct && fire_until(ct); vk_assert(f, "harness: the handshake timer fires when the broker stays silent");
     return true;
   }
   void send_connack(bool session_present, uint8_t rc, const uint8_t* props, size_t plen) {
@@ -152,7 +182,10 @@ struct W {
     if constexpr (q == qos_e::at_most_once)
       c.async_publish<q>(std::move(topic), std::move(payload), retain, props, asio::bind_cancellation_slot(slot, [this, i](error_code ec) { done(i, ec, 0); }));
     else
-      c.async_publish<q>(std::move(topic), std::move(payload), retain, props, asio::bind_cancellation_slot(slot, [this, i](error_code ec, reason_code rc, auto) { done(i, ec, rc.value()); }));
+      c.async_publish<q>(std::move(topic), std::move(payload), retain, props, asio::bind_cancellation_slot(slot, [this, i](error_code ec, reason_code rc, auto props) {
+        // properties of the final acknowledgement as handed to the application (Reason String, User Property)
+        op_rec& o = ops[i]; const auto& rs = props[prop::reason_string]; o.has_rs = rs.has_value(); o.rs_len = rs ? (uint8_t)rs->size() : 0; o.rs1 = rs && rs->size() > 1 ? (uint8_t)(*rs)[1] : 0;
+        o.nuser = (int)props[prop::user_property].size(); done(i, ec, rc.value()); }));
     in_api = false; return i;
   }
   int subscribe(std::vector<subscribe_topic> topics, subscribe_props props = {}) {
@@ -189,6 +222,8 @@ struct W {
 
   // ------------------------------------------------------------ broker replies
   void ack(uint8_t type, uint16_t pid, uint8_t rc = 0, int form = 0) { ref::wr w = outw(); ref::enc_ack(w, type, pid, rc, form); commit(w); }
+  // acknowledgement carrying a two-character Reason String "r<c>"
+  void ack_with_reason(uint8_t type, uint16_t pid, uint8_t rc, uint8_t c) { ref::wr w = outw(); ref::enc_ack_props(w, type, pid, rc, c); commit(w); }
   void suback(uint8_t type, uint16_t pid, const uint8_t* codes, size_t n) { ref::wr w = outw(); ref::enc_suback(w, type, pid, codes, n); commit(w); }
   void publish_to_client(const void* topic, size_t tl, const void* payload, size_t pl, uint8_t qos, bool dup, uint16_t pid) {
     ref::wr w = outw(); ref::enc_publish(w, topic, tl, payload, pl, qos, dup, false, pid, nullptr, 0); commit(w);
